@@ -70,6 +70,8 @@ Marshal == /\ l <= Len(Trace) /\ Ev.op = "M"
 RangesOf(v, in) == {a \in 0 .. Len(in) - Len(v) : SubSeq(in, a + 1, a + Len(v)) = v}
 Decode == /\ l <= Len(Trace) /\ Ev.op = "D"
           /\ ~Ev.panic
+          \* over: the same call repeated with the input placed against a page that may not be touched faulted there
+          /\ Has(Ev, "over") => ~Ev.over
           /\ IF Ev.kind \in BytesKinds /\ Ev.ok
              THEN /\ Ev.inside
                   /\ \E a \in RangesOf(Ev.v, Ev.in) :
